@@ -456,11 +456,14 @@ func defaultWithAffinity(typ string, v interface{}) interface{} {
 		}
 	case affNumeric, affInteger, affReal:
 		if s, ok := v.(string); ok {
-			// text which looks like a number is stored as that number
-			if n, err := strconv.ParseInt(strings.TrimSpace(s), 10, 64); err == nil {
-				v = n
-			} else if numericText.MatchString(s) {
-				if f, err := strconv.ParseFloat(strings.TrimSpace(s), 64); err == nil {
+			// text which looks like a number is stored as that number. Only
+			// ASCII white space around it is ignored.
+			if numericText.MatchString(s) {
+				num := strings.Trim(s, " \t\n\v\f\r")
+				if n, err := strconv.ParseInt(num, 10, 64); err == nil {
+					v = n
+				} else if f, err := strconv.ParseFloat(num, 64); err == nil || errors.Is(err, strconv.ErrRange) {
+					// too big for a float64 is +Inf or -Inf
 					v = f
 				}
 			}
@@ -471,7 +474,7 @@ func defaultWithAffinity(typ string, v interface{}) interface{} {
 				return float64(n)
 			}
 		case float64:
-			if aff != affReal && n == math.Trunc(n) && n >= -9223372036854775808.0 && n < 9223372036854775808.0 {
+			if aff != affReal && n == math.Trunc(n) && n > -9223372036854775808.0 && n < 9223372036854775808.0 {
 				return int64(n)
 			}
 		}
